@@ -107,7 +107,8 @@ Proof.
   destruct (t_add_edge_label t l) as [t' r] eqn:E.
   destruct (add_edge_label_spec _ _ _ _ E H) as (A & B & _).
   destruct r as [| |k]; try (cbn; split; assumption);
-    (destruct (negb (Nat.eqb (length (f_doms f)) (length (el_ty l)))); [cbn; split; assumption|];
+    (destruct (amem Nat.eq_dec (t_fac t') (el_name l)); [cbn; split; assumption|];
+     destruct (negb (Nat.eqb (length (f_doms f)) (length (el_ty l)))); [cbn; split; assumption|];
      destruct (negb (fac_doms_ok t' (el_ty l) (f_doms f))); cbn; [split; assumption|];
      split; [destruct A; split; assumption | exact B]).
 Qed.
